@@ -1,4 +1,5 @@
 import SciVerif.Lemmas.TaskSkip
+import SciVerif.Lemmas.TaskSim
 import SciVerif.Props.C01
 import SciVerif.Props.C02
 /-!
@@ -15,6 +16,13 @@ during recovery are simply further attempts.
   step and changes nothing.
 * `c03_finalized_not_reexecuted`: after cleanup, a task one of whose outputs was finalized is not
   executed again and its files are not touched.
+* `c03_rerun_is_fresh_run`: after cleanup the re-run is, at every instant and in every file, temp dir,
+  program counter and status, the run of the same task started for the first time in a directory that
+  holds exactly the outputs finalized so far; so when nothing was finalized yet, the re-run **is** the
+  uninterrupted run (`c03_converges`: for every history either some declared output is final — and
+  then it is complete and the task is skipped, reaching `done` — or the next attempt after cleanup is
+  step for step an uninterrupted first run). For tasks with one non-streaming output these two cases
+  are the whole statement of the property; for several outputs the first case contains the window of F13.
 * `c03_fails_in_window` (negative, listed finding F13): a two-output task killed between its two
   renames is skipped by the re-run, which reports success while the second output never appears.
 -/
@@ -50,6 +58,43 @@ theorem c03_finalized_not_reexecuted (sem : Sem) (hwf : WF_C02 sem) (c : Cfg) (s
     rw [anyFinalExists_congr c s (cleanup s) rfl]; exact hex
   exact c02_rerun_idempotent sem hwf c (cleanup s) rfl hex' n
 
+/-- the state in which a task is started for the first time in a directory whose output files are `fo` -/
+def freshStart (sem : Sem) (c : Cfg) (fo : Nat → Option File) : St :=
+  { init sem c (fun _ => none) with finalOut := fo }
+
+theorem c03_rerun_is_fresh_run (sem : Sem) (c : Cfg) (s : St) (n : Nat) :
+    R (stepN sem c n (restart sem (cleanup s))) (stepN sem c n (freshStart sem c s.finalOut)) :=
+  stepN_sim sem c n _ _ ⟨rfl, rfl, rfl, rfl, rfl, rfl, rfl, rfl⟩
+
+/-- a first run in an empty directory is `freshStart` on no files -/
+theorem init_eq_freshStart (sem : Sem) (c : Cfg) : init sem c (fun _ => none) = freshStart sem c (fun _ => none) := by
+  simp [freshStart, init]
+
+theorem c03_converges (sem : Sem) (hwf : WF_C01 sem) (hwf2 : WF_C02 sem) (hwf3 : WF_C03 sem) (c : Cfg)
+    (hist : List (Nat × Bool)) (m : Nat) :
+    let s := stepN sem c m (runHistory sem c (fun _ => none) hist)   -- killed here, then cleaned up
+    (anyFinalExists c s = true ∧
+      (∀ p f, s.finalOut p = some f → f.fresh = true → f.complete = true) ∧
+      (∀ n, (stepN sem c n (restart sem (cleanup s))).finalOut = s.finalOut ∧
+            (stepN sem c n (restart sem (cleanup s))).executed = s.executed) ∧
+      (stepN sem c (sem.ops.length + 1) (restart sem (cleanup s))).status = .done) ∨
+    (anyFinalExists c s = false ∧
+      ∀ n, R (stepN sem c n (restart sem (cleanup s))) (stepN sem c n (freshStart sem c s.finalOut))) := by
+  intro s
+  cases hex : anyFinalExists c s with
+  | false => exact Or.inr ⟨rfl, fun n => c03_rerun_is_fresh_run sem c s n⟩
+  | true =>
+    refine Or.inl ⟨rfl, ?_, ?_, ?_⟩
+    · intro p f hf hfresh
+      exact c03_any_history_safe sem hwf hwf3 c (fun _ => none) hist m p f hf hfresh
+    · intro n
+      have := c03_finalized_not_reexecuted sem hwf2 c s hex n
+      exact ⟨this.2, this.1⟩
+    · have hst : Start sem (restart sem (cleanup s)) := ⟨rfl, rfl, rfl, rfl, rfl⟩
+      have hex' : anyFinalExists c (restart sem (cleanup s)) = true := by
+        rw [anyFinalExists_congr c s (restart sem (cleanup s)) rfl]; exact hex
+      exact K_progress sem c _ hex' sem.ops.length _ (K_start sem hwf2 c _ hst) (Nat.le_refl _)
+
 /-- negative (F13): two outputs, killed right after the first rename, cleaned up, re-run to the
 end: the run reports `done` (skipped), output 1 is missing for good -/
 theorem c03_fails_in_window :
@@ -65,3 +110,6 @@ end SciVerif.TaskFS
 #print axioms SciVerif.TaskFS.c03_leftover_refuses
 #print axioms SciVerif.TaskFS.c03_finalized_not_reexecuted
 #print axioms SciVerif.TaskFS.c03_fails_in_window
+#print axioms SciVerif.TaskFS.c03_rerun_is_fresh_run
+#print axioms SciVerif.TaskFS.init_eq_freshStart
+#print axioms SciVerif.TaskFS.c03_converges
